@@ -43,8 +43,14 @@ package proto
 //@ spec func ncLen(a Bytes, n Int) Int
 //@ -- decimalDowncast / normalizeCommas go through strings.Cut/TrimSpace/Split/Join and strconv.Atoi:
 //@ -- their results are assumed to be functions of the argument; their bodies are checked for safety
-//@ contract (c ColumnType) decimalDowncast() (r) props(C19)
+//@ contract (c ColumnType) decimalDowncast() (r) props(C18,C19)
 //@   ensures [abstract] arrayof(r) == ddArr(arrayof(c), len(c)) && len(r) == ddLen(arrayof(c), len(c))
+//@ -- the storage width by precision is ClickHouse's: P in [1,9] Decimal32, [10,18] Decimal64,
+//@ -- [19,38] Decimal128, [39,76] Decimal256 (stated over the parsed precision of the function body)
+//@   ensures [internal] err == nil && 1 <= prec && prec <= 9 ==> r == ColumnTypeDecimal32 [C18,C19] {precision-1-to-9-is-decimal32}
+//@   ensures [internal] err == nil && 10 <= prec && prec <= 18 ==> r == ColumnTypeDecimal64 [C18,C19] {precision-10-to-18-is-decimal64}
+//@   ensures [internal] err == nil && 19 <= prec && prec <= 38 ==> r == ColumnTypeDecimal128 [C18,C19] {precision-19-to-38-is-decimal128}
+//@   ensures [internal] err == nil && 39 <= prec && prec <= 76 ==> r == ColumnTypeDecimal256 [C18,C19] {precision-39-to-76-is-decimal256}
 //@ contract (c ColumnType) normalizeCommas() (r) props(C19)
 //@   ensures [abstract] arrayof(r) == ncArr(arrayof(c), len(c)) && len(r) == ncLen(arrayof(c), len(c))
 //@ loop 0 (elems, rangeindex)
@@ -71,9 +77,10 @@ package proto
 // 19..38, Decimal256: 39..76) - stated at the allocation of each column kind; DateTime64 adopts the
 // precision of the type it is inferred from, whatever it held before (C16/C18 reuse).
 
-//@ contract (c *ColAuto) Infer(t) (err) props(C01,C18,C19)
+//@ contract (c *ColAuto) Infer(t) (err) props(C01,C06,C18,C19)
 //@   requires c != nil
 //@   modifies c.Data, c.DataType
+//@   ensures err == nil ==> c.Data != nil [C06,C19] {successful-inference-always-yields-a-column}
 //@ -- an already inferred column is kept only if its FULL type does not conflict with the FULL
 //@ -- requested type (comparing less - e.g. only the base names - would keep Array(Int32) for Array(Int64))
 //@ callsite (ColumnType).Conflicts#1
